@@ -230,6 +230,7 @@ type Counter struct {
 	Ssid    Ssid
 	Channel []byte
 	Counter int
+	next    *Counter // The next counter of a different SSID with the same hash code.
 }
 
 // NewCounters creates a new container.
@@ -268,14 +269,25 @@ func (s *Counters) Decrement(ssid Ssid) (last bool) {
 	defer s.Unlock()
 
 	key := ssid.GetHashCode()
-	if m, exists := s.m[key]; exists {
-		m.Counter--
+	var prev *Counter
+	for m := s.m[key]; m != nil; prev, m = m, m.next {
+		if !sameSsid(m.Ssid, ssid) {
+			continue // Hash collision, a counter of a different SSID
+		}
 
 		// Remove if there's no subscribers left
-		if m.Counter <= 0 {
-			delete(s.m, ssid.GetHashCode())
+		if m.Counter--; m.Counter <= 0 {
+			switch {
+			case prev != nil:
+				prev.next = m.next
+			case m.next != nil:
+				s.m[key] = m.next
+			default:
+				delete(s.m, key)
+			}
 			return true
 		}
+		return false
 	}
 
 	return false
@@ -287,8 +299,10 @@ func (s *Counters) All() []Counter {
 	defer s.Unlock()
 
 	clone := make([]Counter, 0, len(s.m))
-	for _, m := range s.m {
-		clone = append(clone, *m)
+	for _, head := range s.m {
+		for m := head; m != nil; m = m.next {
+			clone = append(clone, Counter{Ssid: m.Ssid, Channel: m.Channel, Counter: m.Counter})
+		}
 	}
 
 	return clone
@@ -297,8 +311,11 @@ func (s *Counters) All() []Counter {
 // getOrCreate retrieves a single subscription meter or creates a new one.
 func (s *Counters) getOrCreate(ssid Ssid, channel []byte) (meter *Counter) {
 	key := ssid.GetHashCode()
-	if m, exists := s.m[key]; exists {
-		return m
+	var last *Counter
+	for m := s.m[key]; m != nil; last, m = m, m.next {
+		if sameSsid(m.Ssid, ssid) {
+			return m
+		}
 	}
 
 	meter = &Counter{
@@ -306,6 +323,25 @@ func (s *Counters) getOrCreate(ssid Ssid, channel []byte) (meter *Counter) {
 		Channel: channel,
 		Counter: 0,
 	}
-	s.m[key] = meter
+
+	// The hash code is not unique ("a/b" and "b/a" collide), chain the counters
+	if last != nil {
+		last.next = meter
+	} else {
+		s.m[key] = meter
+	}
 	return
+}
+
+// sameSsid checks whether two SSIDs are equal.
+func sameSsid(a, b Ssid) bool {
+	if len(a) != len(b) {
+		return false
+	}
+	for i := range a {
+		if a[i] != b[i] {
+			return false
+		}
+	}
+	return true
 }
